@@ -2,6 +2,8 @@
    admission decision on transactions valid / invalid in chosen respects, and block packing. *)
 From NG Require Import Common.Tactics Common.HarnessLib.
 From NG Require Export Admission.Fee Admission.Admit Admission.Conflicts Admission.Refresh Mempool.Model Mempool.Spec.
+From NG Require VM.Model Admission.VMScripts.
+From Coq Require String Ascii.
 Open Scope N_scope.
 
 (* a witness as the harness made it: signer shape, verification script hashes to the signer, signatures good *)
@@ -11,6 +13,13 @@ Inductive case :=
 | CShape (base : N) (s : shape) (inv ver : list N) (verif_len : N)
          (calc_fee_impl calc_size_impl vm_gas wit_size : N)
     (* fee.Calculate's two results, Blockchain.VerifyWitness gas, encoded witness size, opcodes of both scripts *)
+| CScript (base m : N) (keys sigs : list (list N)) (ver inv : list N) (vm_gas : N)
+    (* the real witness of a signer: public keys parsed from its verification script (m = 0: signature account),
+       signatures from its invocation script, both scripts as bytes, Blockchain.VerifyWitness gas (Datoshi) *)
+| CBuilder (m : N) (keys_hex ver_hex : list String.string)
+    (* smartcontract.CreateMultiSigRedeemScript m keys = ver, for key counts beyond what can be verified on chain;
+       keys_hex = the 33-byte keys one after another in the order the builder wrote them, both in hexadecimal,
+       cut into pieces of an even number of characters *)
 | CBoundary (base maxgas : N) (shapes : list shape) (delta : Z) (accepted : bool)
     (* network fee = size*feePerByte + attribute fees + sum of fee.Calculate + delta; VerifyTx accepted? *)
 | CAdmit (base : N) (c : chainfacts) (t : txfacts) (ws : list hwit) (pre : list tx) (x : tx)
@@ -106,6 +115,39 @@ Fixpoint refresh_run (hs : list N) (t : ptx nat) (c : nat * list (ptx nat)) (ops
       (Bool.eqb now pooled && m, spec && s)
   end.
 
+Definition hexval (c : Ascii.ascii) : Z :=
+  let n := Z.of_N (Ascii.N_of_ascii c) in
+  if ((48 <=? n) && (n <=? 57))%Z then (n - 48)%Z else if ((97 <=? n) && (n <=? 102))%Z then (n - 87)%Z else 0%Z.
+Fixpoint hex_bytes (s : String.string) : list Z :=
+  match s with
+  | String.String a s' =>
+      match s' with String.String b r => (16 * hexval a + hexval b)%Z :: hex_bytes r | String.EmptyString => [] end
+  | String.EmptyString => []
+  end.
+Fixpoint chunks (fuel k : nat) (l : list Z) : list (list Z) :=
+  match fuel with
+  | O => []
+  | S f => match l with [] => [] | _ => firstn k l :: chunks f k (skipn k l) end
+  end.
+
+(* bytes of the builders' model, and the NeoVM model run on bytes (unlimited gas, every signature accepted) *)
+Definition zbytes (l : list N) : list Z := map Z.of_N l.
+Definition model_scripts (m : N) (keys sigs : list (list N)) : list Z * list Z :=
+  let zk := map zbytes keys in let zs := map zbytes sigs in
+  if m =? 0 then (VMScripts.sig_verification (hd [] zk), VMScripts.sig_invocation (hd [] zs))
+  else (VMScripts.multisig_verification (Z.of_N m) zk, VMScripts.multisig_invocation zs).
+Definition zlist_eqb := list_eqb Z.eqb.
+Definition vm_run_ok (base : N) (ver inv : list Z) (fuel : nat) (vm_gas : N) : bool :=
+  match VMScripts.run_with (fun _ _ => true) (Z.of_N ecdsa_verify_price) fuel
+          (VMScripts.witness_state inv ver (Z.of_N base) (-1)%Z) with
+  | Model.Halted s =>
+      match Model.final_stack s with
+      | [Items.IBool true] => pico_to_datoshi (Z.to_N (Model.s_gas s)) =? vm_gas
+      | _ => false
+      end
+  | _ => false
+  end.
+
 Definition check_case (c : case) : N :=
   match c with
   | CShape base s inv ver verif_len calc_fee_impl calc_size_impl vm_gas wit_size =>
@@ -114,6 +156,19 @@ Definition check_case (c : case) : N :=
                && (pico_to_datoshi (witness_cost base s) =? vm_gas) in
       (* specification: the calculator's fee is what verifying the witness costs, its size is the witness's size *)
       code_of m ((calc_fee_impl =? vm_gas) && (calc_size_impl =? wit_size))
+  | CScript base m keys sigs ver inv vm_gas =>
+      let '(mv, mi) := model_scripts m keys sigs in
+      let fuel := (length keys + length sigs + 8)%nat in
+      let same := zlist_eqb mv (zbytes ver) && zlist_eqb mi (zbytes inv) in
+      (* specification: the NeoVM model run on the REAL bytes halts with true at the real VM's gas, which is fee.Calculate *)
+      let s := vm_run_ok base (zbytes ver) (zbytes inv) fuel vm_gas
+               && (calc_fee base (m, N.of_nat (length keys)) =? vm_gas) in
+      code_of (same && s) s
+  | CBuilder m keys_hex ver_hex =>
+      let kb := List.concat (map hex_bytes keys_hex) in
+      let keys := chunks (List.length kb) 33 kb in
+      let ok := zlist_eqb (VMScripts.multisig_verification (Z.of_N m) keys) (List.concat (map hex_bytes ver_hex)) in
+      code_of ok ok
   | CBoundary base maxgas shapes delta accepted =>
       let need := fold_right (fun s a => calc_fee base s + a) 0 shapes in
       let ws := map (fun s => (witness_cost base s, true)) shapes in
@@ -140,3 +195,6 @@ Definition check_case (c : case) : N :=
                   && pool_premise l (bal_of bal) && pool_premise sel (bal_of bal) in
       code_of ((length b =? k)%nat) spec
   end.
+
+(* the generated case files write hexadecimal strings: make the string notation available to them *)
+From Coq Require Export String.
